@@ -57,7 +57,20 @@ fn other_addr(own: u32, n: u16) -> u32 {
         0 => own ^ 1,
         1 => own ^ 0x800000,
         2 => own.wrapping_add(k) & 0xffffff,
-        3 => 0,
+        // structured relatives: the head and the tail of the 64k / 256 block of the address, a byte cleared, bytes
+        // swapped or rotated (a matcher that compares a prefix, a mask or a block accepts these)
+        3 => match k % 10 {
+            1 => own & 0xff0000,
+            2 => own & 0xffff00,
+            3 => own | 0x00ffff,
+            4 => own | 0x0000ff,
+            5 => own & 0x00ffff,
+            6 => own & 0xff00ff,
+            7 => ((own & 0xff) << 16) | (own & 0x00ff00) | (own >> 16),
+            8 => ((own << 8) | (own >> 16)) & 0xffffff,
+            9 => own >> 4,
+            _ => 0,
+        },
         4 => 0xffffff,
         5 => own ^ (k << 16),
         6 => own ^ (k << 8),
@@ -388,6 +401,14 @@ pub fn run(ctx: &Ctx) {
             for k in 1u16..=255 {
                 let c = Case { df, addr: 0x4840d6, payload: [0x5a; 11], df_filter: None, ac_filter: Some(vec![(k << 3) | pos]), via_toml: false, undecoded: false };
                 ctx.class("single-byte neighbour of the address as the only filter entry");
+                ctx.judge(check_case(ctx, &c));
+            }
+        }
+        // the structured relatives of the address (block head / tail, byte cleared, bytes swapped, ...) as the only entry
+        for addr in [0x4840d6u32, 0x3a1234, 0xa0b1c2, 0x00a1b2, 0x7f0001] {
+            for k in 1u16..=10 {
+                let c = Case { df, addr, payload: [0xc3; 11], df_filter: None, ac_filter: Some(vec![(k << 3) | 3]), via_toml: k % 2 == 0, undecoded: false };
+                ctx.class("structured relative of the address (block head / tail, byte cleared, bytes swapped) as the only filter entry");
                 ctx.judge(check_case(ctx, &c));
             }
         }
